@@ -25,6 +25,15 @@ const KINDS = {
   dynParen: { v: '={(x)}', dyn: true, only: ['class', 'id', 'ref'] },
   arrDynConst: { v: '={[x, 1] as const}', dyn: true, ts: true, only: ['class', 'id', 'style'] },
   objDynConst: { v: '={{ a: x } as const}', dyn: true, ts: true, only: ['class', 'id', 'style'] },
+  objShorthandUndef: { v: '={{ undefined }}', dyn: false, only: ['id', 'style'] },
+  objShorthand: { v: '={{ x }}', dyn: true, only: ['class', 'id', 'style'] },
+  objSpread: { v: '={{ ...o }}', dyn: true, only: ['class', 'id', 'style'] },
+  objComputed: { v: '={{ [x]: 1 }}', dyn: true, only: ['class', 'id'] },
+  objMethod: { v: '={{ m() { return x; } }}', dyn: true, only: ['id'] },
+  arrSpread: { v: '={[...xs]}', dyn: true, only: ['class', 'id'] },
+  arrHole: { v: '={[, x]}', dyn: true, only: ['id'] },
+  tplConst: { v: '={`t`}', dyn: false, only: ['id', 'class'] },
+  tplDyn: { v: '={`t${x}`}', dyn: true, only: ['id', 'class'] },
   arrAsConst: { v: '={[1, 2] as const}', dyn: false, ts: true, only: ['id'] },
 };
 const ATOMS = [];
